@@ -80,6 +80,9 @@ type behaviour struct {
 	noPid        bool   // controllable: GetState does not report the pid (field left at its proto3 default)
 	firstRunOnly bool   // basic: only the first child behaves as scripted, the later ones run until signalled
 	user         string // the task template names a user to run the command as (the executor then sets credentials on the child)
+	// the helper the child forks ignores SIGTERM and SIGINT while the leader itself dies of them (a shell with a
+	// stubborn job: the group only goes away at SIGKILL)
+	helperIgnoresTermInt bool
 }
 
 func (b behaviour) exits() bool { return b.exitAfter > 0 }
@@ -92,6 +95,8 @@ var (
 	bForks     = behaviour{name: "forks", forks: true, exitAfter: time.Second}
 	bForksRuns = behaviour{name: "forksruns", forks: true}
 	bStartFail = behaviour{name: "startfail", startFails: true}
+	// the leader dies of SIGTERM, what it forked only of SIGKILL
+	bForksStubbornHelper = behaviour{name: "forksstubbornhelper", forks: true, helperIgnoresTermInt: true}
 	// the template sets `user`: the child still has to get its own process group
 	bRunsUser      = behaviour{name: "runsuser", user: "root"}
 	bForksRunsUser = behaviour{name: "forksrunsuser", forks: true, user: "root"}
@@ -286,7 +291,8 @@ func (r *run) startHook(c *simproc.Cmd) (simproc.Program, error) {
 		}
 		p.IgnoreTermInt = b.ignoreTermInt
 		if b.forks {
-			p.Fork("helper", func(h *simproc.Proc) { h.WaitDeath() })
+			h := p.Fork("helper", func(h *simproc.Proc) { h.WaitDeath() })
+			h.IgnoreTermInt = b.helperIgnoresTermInt
 		}
 		if b.exits() {
 			if p.Sleep(b.exitAfter) {
@@ -696,6 +702,8 @@ func (s *scen) mechanism() string {
 		return ":device-reports-no-pid"
 	case s.beh.crashes:
 		return ":child-died-by-signal"
+	case s.beh.helperIgnoresTermInt:
+		return ":helper-ignores-TERM-and-INT"
 	}
 	return ""
 }
@@ -881,6 +889,10 @@ func scenarios() (out []*vrt.Scenario) {
 		}
 		out = append(out, mk(kBasic, b, "restart", st("START", wRunning), st("STOP", wSettled, wLater), st("START", wSettled), st("STOP", last...)))
 	}
+	// round 5: the escalation has to end with the whole group gone, not with the leader gone
+	out = append(out, mk(kBasic, bForksStubbornHelper, "stop", st("START", wRunning), st("STOP", wNow, wSettled, wLater)))
+	out = append(out, mk(kBasic, bForksStubbornHelper, "kill", st("START", wRunning), st("KILL", wNow, wSettled, wLater)))
+	out = append(out, mk(kHook, bForksStubbornHelper, "trigger-kill", st("TRIGGER", wRunning), st("KILL", wNow, wSettled, wLater)))
 	for _, b := range []behaviour{bRunsUser, bForksRunsUser} {
 		out = append(out, mk(kBasic, b, "stop", st("START", wRunning), st("STOP", wNow, wSettled, wLater)))
 		out = append(out, mk(kBasic, b, "kill", st("START", wRunning), st("KILL", wNow, wSettled, wLater)))
